@@ -12,6 +12,7 @@ pub mod resolve_api;
 pub mod time_travel;
 pub mod maintenance;
 pub mod returns;
+pub mod fidelity;
 pub mod delta_roundtrip;
 pub mod deltaid;
 pub mod history;
@@ -47,6 +48,7 @@ pub fn run(name: &str, thorough: bool, seed: u64) -> Option<Report> {
         "time_travel" => Some(time_travel::run(thorough, seed)),
         "maintenance" => Some(maintenance::run(thorough, seed)),
         "returns" => Some(returns::run(thorough, seed)),
+        "fidelity" => Some(fidelity::run(thorough, seed)),
         _ => None,
     }
 }
@@ -73,6 +75,7 @@ pub fn replay(name: &str, case: &Value) -> Value {
         "time_travel" => time_travel::replay(case),
         "maintenance" => maintenance::replay(case),
         "returns" => returns::replay(case),
+        "fidelity" => fidelity::replay(case),
         _ => json!({"reproduced": false, "error": "unknown oracle"}),
     }
 }
